@@ -1135,7 +1135,12 @@ class ServerSSM(SSM):
         if self.segmentRetryCount < self.numberOfApduRetries:
             self.segmentRetryCount += 1
             self.start_timer(self.segmentTimeout)
-            self.fill_window(self.initialSequenceNumber)
+
+            # until the first segment has been acked there is no window yet
+            if self.initialSequenceNumber == 0:
+                self.response(self.get_segment(0))
+            else:
+                self.fill_window(self.initialSequenceNumber)
         else:
             # give up
             self.set_state(ABORTED)
